@@ -617,13 +617,13 @@ theorem startDial_co (s : State) (r : ReqId) : (startDial s r).co = s.co := by
   unfold startDial; split <;> rfl
 
 /-- a new connection gets a fresh id and the checkout's origin -/
-theorem newConn_inv {s : State} (h : OriginInv s) (c : Checkout) (alpn : Bool)
+theorem newConn_inv {s : State} (h : OriginInv s) (c : Checkout) (alpn : Negotiated)
     (hk : s.keys.lookup c.key = some c.token) :
     OriginInv (newConn s c alpn).1 ∧ Ext s (newConn s c alpn).1 ∧ (newConn s c alpn).1.co = s.co ∧
       ConnTok (newConn s c alpn).1 c.token (newConn s c alpn).2 := by
   unfold newConn
   simp only []
-  generalize (if c.mux || alpn then Kind.h2 else Kind.h1) = kd
+  generalize connKind c.mux alpn = kd
   have hfresh : s.conns s.nextConn = none := by
     cases hc : s.conns s.nextConn with
     | none => rfl
